@@ -19,7 +19,8 @@ BOUNDS = {
               "strings": "length 0..2 per operand, all code points incl. non-BMP", "maps": "2 concrete or 2 symbolic keys (int / 1-char string)", "runners": "both"},
     "thorough": {"lists": "length 0..5", "index": "same", "strings": "length 0..3", "maps": "up to 3 keys", "runners": "both"},
 }
-OUTSIDE = ["`matches`: RE2 is C++; only `invalid pattern => error` is exercised (concretely); no reference matcher is claimed",
+OUTSIDE = ["`matches`: RE2 is C++; `invalid pattern => error` is exercised concretely and a grid of 13 patterns x 40 subjects is compared with Python's re on a "
+           "fragment where both agree (enumeration, labelled); no symbolic reference matcher is claimed",
            "nested containers beyond one level", "all()/exists() absorption (C02)"]
 ASSUMPTIONS = ["well-typed programs only (list<int>, map<int|string,int>, string)"]
 TRUSTED = ["z3 5.1", "CPython 3.12", "vf.sym shadows (SList/SDict give exact index / key case splits)", "reference sequence semantics in this module"]
@@ -102,7 +103,8 @@ def _harnesses(t, runner):
         ovf2 = z3.Or([z3.Not(in64(e - K)) for e in el]) if n else z3.BoolVal(False)
 
         def run(vals):
-            b = {"l": _bind_list(n, vals), "k": ct.IntType(mk(SInt, K, vals["k"]))}
+            # an outer binding named like the iteration variable must be shadowed inside the macro body
+            b = {"l": _bind_list(n, vals), "k": ct.IntType(mk(SInt, K, vals["k"])), "x": ct.IntType(mk(SInt, K, vals["k"])) + ct.IntType(0)}
             kd, r = common.outcome(lambda: prog.evaluate(dict(b)))
             obs = []
             if kd == "error":
@@ -134,7 +136,7 @@ def _harnesses(t, runner):
         keep = [e > K for e in el]
 
         def run(vals):
-            b = {"l": _bind_list(n, vals), "k": ct.IntType(mk(SInt, K, vals["k"]))}
+            b = {"l": _bind_list(n, vals), "k": ct.IntType(mk(SInt, K, vals["k"])), "x": ct.IntType(mk(SInt, K, vals["k"]))}
             kd, r = common.outcome(lambda: prog.evaluate(dict(b)))
             if kd != "value":
                 return [Ob(f"C09/filter/no-error@{runner}", z3.BoolVal(False), note=f"{kd} {r!r}"[:120])]
@@ -159,7 +161,7 @@ def _harnesses(t, runner):
         el = _elems(n)
 
         def run(vals):
-            b = {"l": _bind_list(n, vals), "k": ct.IntType(mk(SInt, K, vals["k"]))}
+            b = {"l": _bind_list(n, vals), "k": ct.IntType(mk(SInt, K, vals["k"])), "x": ct.IntType(7)}
             kd, r = common.outcome(lambda: prog.evaluate(dict(b)))
             if kd != "value":
                 return [Ob(f"C09/exists_one/no-error@{runner}", z3.BoolVal(False), note=f"{kd} {r!r}"[:120])]
@@ -178,7 +180,7 @@ def _harnesses(t, runner):
         el = _elems(n)
 
         def run(vals):
-            b = {"l": _bind_list(n, vals), "k": ct.IntType(mk(SInt, K, vals["k"]))}
+            b = {"l": _bind_list(n, vals), "k": ct.IntType(mk(SInt, K, vals["k"])), "y": ct.IntType(mk(SInt, K, vals["k"]))}
             obs = []
             spec = z3.Or([e == K for e in el]) if n else z3.BoolVal(False)
             rs = {}
@@ -392,7 +394,8 @@ def _harnesses(t, runner):
 
     if kind == "matches-invalid":
         vars, pre = V.shape_vars(("string", 1), "s")
-        progs = [common.make_program(s, runner) for s in ("s.matches('(')", "matches(s, '[a')", "s.matches('a{2,1}')")]
+        progs = [common.make_program(s, runner) for s in ("s.matches('(')", "matches(s, '[a')", "s.matches('a{2,1}')", "s.matches('?')", "s.matches('?a')",
+                                                          "s.matches('*a')", "matches(s, '+')", "s.matches('a(?P<n')", "s.matches('[z-a]')", "s.matches('x{')" if False else "s.matches(')')")]
 
         def run(vals):
             bd = {"s": V.build(("string", 1), "s", vals)}
@@ -407,3 +410,12 @@ def _harnesses(t, runner):
     if kind == "in-map":
         return []
     raise ValueError(t)
+
+
+MATCH_PATTERNS = ["colou?r", "a.c", "ab*", "^a", "b$", "a|b", "(ab)+", "[a-c]x", "a?", "x+y", "a{2}", "\\.", "^$"]
+MATCH_SUBJECTS = ["", "a", "b", "ab", "abc", "color", "colour", "colr", "a.c", "axc", "aab", "abab", "bx", "cx", "dx", "xy", "xxy", "y", "aa", ".", "ba", "abb",
+                  "a\nc", "A", "colouur", "ac", "x", "xa", "ax", "aaa", "é", "aé", "abx", "cab", "b$", "^a", "a|b", "a?", "xy+", "x+y"]
+
+
+def extra_validation():
+    return [{"check": "c09.matches_grid", "args": {"pattern": p, "subjects": MATCH_SUBJECTS}} for p in MATCH_PATTERNS]
